@@ -125,6 +125,34 @@ def describeLink (l : LinkT) : String × LinkState := (linkRef l.epA l.epB, { ba
 
 def describe (t : Truth) : SimState := { nodes := t.nodes.map describeNode, links := t.links.map describeLink }
 
+/-! ## the documented bands — written from the documentation's tables, NOT from the code
+
+The demonstration notebooks document two kinds of banded leaves (`UC7-E2E-Demo.ipynb`, `Data-Manipulation-E2E-Demonstration.ipynb`):
+
+    counted occurrences (executions, accesses, malicious network events)      utilisation of a link / an interface
+        0 | 0                                                                     0  | exactly 0 %
+        1 | 1-5          (low < n ≤ medium, defaults 0 / 5 / 10)                  1  | 0-11 %   …   9 | 88-99 %   (one ninth each)
+        2 | 6-10         (medium < n ≤ high)                                      10 | exactly 100 %  (and anything above: the space ends at 10)
+        3 | >10          (n > high)
+
+`specBand` and `specUtil` are these tables as functions.  They share nothing with `categorise` / `utilBin` of `Model/Obs.lean` (the
+code's if-chains and its `int(x / b * 9) + 1`); `Props/C09.lean` PROVES them equal (`C09_band_eq_code`, `C09_util_eq_code`), so a wrong
+threshold or bin formula on the code side is a failed proof, not an error shared by both sides. -/
+
+/-- `_validate_thresholds`: an observation object only exists with strictly ascending thresholds -/
+def Thr.Ok (t : Thr) : Prop := t.low < t.med ∧ t.med < t.high
+
+/-- counted occurrences: the band is the number of thresholds (low, medium, high) the count has passed -/
+def specBand (t : Thr) (n : Int) : Nat := ([t.low, t.med, t.high].filter (fun th => decide (th < n))).length
+
+/-- utilisation: 0 for nothing, 10 from 100 % of the capacity up, otherwise 1 + the number of ninths of the capacity that have been
+reached; a capacity of 0 with traffic cannot be encoded (the code divides by it) -/
+def specUtil (x b : Nat) : Val :=
+  if x = 0 then .int 0
+  else if b = 0 then .raised
+  else if b ≤ x then .int 10
+  else .int (1 + ((List.range 9).filter (fun v => decide ((v + 1) * b ≤ 9 * x))).length)
+
 /-! ## the specification encoder -/
 
 def Truth.node (t : Truth) (h : String) : Option NodeT := t.nodes.find? (fun n => n.hostname = h)
@@ -157,7 +185,7 @@ def AppObs.spec (o : AppObs) (t : Truth) : Val :=
       match n.apps.find? (fun s => s.name = name) with
       | none => appDefault
       | some s => .dict [(.s "operating_status", .int (specOp s)), (.s "health_status", .int (specHealth o.scan s)),
-                         (.s "num_executions", .int (categorise o.thr s.numExec))]
+                         (.s "num_executions", .int (specBand o.thr s.numExec))]
 
 /-- the live file named `fi` in the live folder named `fo` of node `h` -/
 def Truth.file (t : Truth) (h fo fi : String) : Option FileT :=
@@ -175,7 +203,7 @@ def FileObs.spec (o : FileObs) (t : Truth) : Val :=
     match t.file h fo fi with
     | none => o.default
     | some f => .dict ((.s "health_status", .int (if o.scan then f.visible else f.health)) ::
-                       optEntry o.numAccess (.s "num_access") (.int (categorise o.thr f.numAccess)))
+                       optEntry o.numAccess (.s "num_access") (.int (specBand o.thr f.numAccess)))
 
 def Truth.folder (t : Truth) (h fo : String) : Option FolderT :=
   match t.node h with
@@ -222,12 +250,12 @@ def NicObs.spec (o : NicObs) (t : Truth) : Val :=
       .dict ((.s "nic_status", .int (if n.enabled then 1 else 2)) ::
         (optEntry o.includeNmne (.s "NMNE")
            (if n.capturing then
-              .dict (dirDict (.int (categorise o.thr ((n.nmneIn : Int) - o.lastIn)))
-                             (.int (categorise o.thr ((n.nmneOut : Int) - o.lastOut))))
+              .dict (dirDict (.int (specBand o.thr ((n.nmneIn : Int) - o.lastIn)))
+                             (.int (specBand o.thr ((n.nmneOut : Int) - o.lastOut))))
             else .dict (dirDict (.int 0) (.int 0))) ++
          optEntry (!o.traffic.isEmpty) (.s "TRAFFIC")
            (.dict (trafficEntries Val.dict o.traffic
-             (fun p q b => utilBin 10 (n.amount p q b) n.speed)))))
+             (fun p q b => specUtil (n.amount p q b) n.speed)))))
 
 def PortObs.spec (o : PortObs) (t : Truth) : Val :=
   match o.wh with
@@ -239,10 +267,10 @@ def PortObs.spec (o : PortObs) (t : Truth) : Val :=
 
 def LinkObs.spec (o : LinkObs) (t : Truth) : Val :=
   match t.links.find? (fun l => linkRef l.epA l.epB = linkRef o.a o.b) with
-  | some l => .dict [(.s "PROTOCOLS", .dict [(.s "ALL", utilBin 10 l.load l.bandwidth)])]
+  | some l => .dict [(.s "PROTOCOLS", .dict [(.s "ALL", specUtil l.load l.bandwidth)])]
   | none =>
     match t.links.find? (fun l => linkRef l.epA l.epB = linkRef o.b o.a) with
-    | some l => .dict [(.s "PROTOCOLS", .dict [(.s "ALL", utilBin 10 l.load l.bandwidth)])]
+    | some l => .dict [(.s "PROTOCOLS", .dict [(.s "ALL", specUtil l.load l.bandwidth)])]
     | none => linkDefault
 
 /-- index of the first occurrence -/
@@ -257,9 +285,9 @@ def specListId {α} [DecidableEq α] (l : List α) : Option α → Val
     | some i => .int (i + 2)
     | none => .int 1
 
-/-- one ACL slot: all zeros except `position` when the slot is empty; a slot the ACL does not have cannot be encoded (F-6, open) -/
+/-- one ACL slot: all zeros except `position` when the slot is empty — or when the ACL has no such slot at all (no rule can be there) -/
 def AclObs.specRule (o : AclObs) (i : Nat) : Option (Option RuleState) → Val
-  | none => .raised
+  | none => aclEmptyRule i
   | some none => aclEmptyRule i
   | some (some r) =>
     .dict (aclRuleDict (.int i) (.int r.action) (specListId o.ips r.srcIp) (specListId o.wcs r.srcWc) (specListId o.ports r.srcPort)
